@@ -106,6 +106,8 @@ class C13(Spec):
             "polar_lock_with_zones_characterised", "polar_lock_power", "polar_lock_one_speaker",
             "polar_lock_unchanged_renders_as_unlocked", "polar_lock_limit", "polar_lock_zone_two_speakers_witness",
             "polar_lock_one_speaker_layouts_partial",
+            # C05 exactness of the composed panner plugged in: no panner hypothesis left on the ten regenerated layouts
+            "norm_tables_match", "pspHandle_exact_at_norm", "polar_lock_one_speaker_layouts",
             "downmixForExcluded_cast", "alloExcluded_cast", "getExcluded_spec", "zoneMatch_cart_spec", "whileLoop_spec",
             "insideAngleRange_spec", "zoneMatch_polar_spec",
             "screen_position_identity",
@@ -983,12 +985,14 @@ REGISTRY = dict(
     "polar theorems: the panner returns e_k at loudspeaker k; polar_lock_one_speaker_partial / "
     "polar_lock_one_speaker_quad_partial discharge it from C05's triplet_exact_at_vertex / quad_corner when the first "
     "accepting region has the loudspeaker as a vertex (every loudspeaker is a vertex of some region: "
-    "polar_tables_every_speaker_is_vertex); polar_lock_one_speaker_layouts_partial states what is left with the "
-    "concrete C01/C05 panner pspHandle plugged in: pspHandle(position of loudspeaker k) = e_k, i.e. every region "
-    "tried before the first one containing k rejects that position (for QuadRegions a sign statement about "
-    "irrational quadratic roots; on 0+5+0 and 0+7+0 every loudspeaker's first accepting region is a quad), quadRoot "
-    "hits the corner value there, and the virtual-loudspeaker downmix keeps e_k (C05 proves totality and per-region "
-    "exactness). screenRef: screen_identity (equal edges => scale_az_el = id), "
+    "polar_tables_every_speaker_is_vertex); polar_lock_one_speaker_layouts_partial states the same with the "
+    "concrete C01/C05 panner pspHandle plugged in under the single hypothesis pspHandle(position of loudspeaker k) = e_k; "
+    "polar_lock_one_speaker_layouts has NO panner hypothesis on the ten regenerated layouts: C05 now proves that fact "
+    "(Earverif.PointSource.pspHandle_exact_at_speaker_layouts: every region tried before the first one containing k "
+    "rejects k's position, that region answers e_k, the virtual-loudspeaker downmix / stereo wrapper keep it; exact "
+    "arithmetic on a certificate regenerated from configure() on every run), and the table obligation "
+    "norm_tables_match (decide +kernel) says that layout.norm_positions[k] of the C13 table is the position of channel k "
+    "in the C05 region table (pspHandle_exact_at_norm). screenRef: screen_identity (equal edges => scale_az_el = id), "
     "screen_position_identity (whole polar step scale_position = id given the C19 round trip of the conversions, "
     "which are parameters); compensate_position modelled (identity without U+045 / at elevation 0 and 90). Float "
     "rounding at thresholds, the polar panner's region order, downmix wrappers and the whole GainCalc.render are covered "
